@@ -433,7 +433,7 @@ def run(ctx, res):
     check_cases(cases, res)
     # whole links with float and integer payloads, direct / through adapters incl. regridding (engines/unitlink.py)
     from . import unitlink
-    for _ in range(ctx.n(80, 1000)):
+    for _ in range(ctx.n(240, 1500)):
         c = unitlink.gen(ctx.rng)
         res.case(c, True)
         res.count("part", "unit-link/" + c["via"])
